@@ -11,6 +11,13 @@
 // discovery has no known features, so its writes never reach HandleMessage and it is not part of this
 // world); peers 2 and 3 (mod 4) are removed through RemoveRemoteDeviceConnection, the others through
 // RemoveRemoteDevice - always the real teardown path, never CleanWriteApprovalCaches directly.
+// Reconnects: model peer q is incarnation q/4 of connection slot q%4; all incarnations of a slot use the
+// same SKI and device address, so after `6 0` the operations of peer 4 are "peer 0 reconnected"
+// (SetupRemoteDevice, discovery reply and binding redone).  The model treats incarnations as different
+// peers (its Clean empties the pending/tally state of the removed one, a later write is a first write);
+// the stack keys its approval maps by SKI.  A history that uses an incarnation while another one of the
+// slot is connected, or repeats a msgCounter on one SKI, is not realisable (observation 96).
+// A panic of a call into the stack is recovered and becomes the observation 16 k (k as for 15).
 // The approval callbacks only record that they were called; the verdicts are given by the
 // schedule: `Lookup` starts ApproveOrDenyWrite on a goroutine of its own, which the hook
 // "ApproveOrDenyWrite.lookedup" (build tag verif) parks between the lookup of the pending
@@ -125,6 +132,7 @@ var (
 	retries     int
 	unreal      int
 	unrealWhy   = map[string]int{}
+	panics      = map[string]int{} // recovered panics of calls into the stack, by text
 	outcomeHist = map[string]int{} // what the implementation did, per kind of step
 	expWaits    int
 	maxLate     time.Duration
@@ -170,6 +178,7 @@ type vthread struct {
 	parked chan struct{}
 	resume chan struct{}
 	done   chan struct{}
+	pnc    any // the recovered panic of the call, if any
 	state  int // 1 parked at the hook, 2 finished
 }
 
@@ -207,21 +216,40 @@ type world struct {
 	verd    map[vid]bool
 	gone    map[int64]bool
 	threads map[vid]*vthread
-	last    *wid  // the write applied last according to the events
-	bound   int64 // the peer holding the binding of the server feature (-1 none)
-	stuck   bool  // a call into this world's stack never returned: nothing more is asked of it
+	last    *wid            // the write applied last according to the events
+	bound   int64           // the peer holding the binding of the server feature (-1 none)
+	stuck   bool            // a call into this world's stack never returned: nothing more is asked of it
+	byKey   map[wid]wid     // (slot, msgCounter) -> write of the model
+	live    map[int64]int64 // slot -> incarnation (model peer) whose connection is up
 }
 
 var fn = model.FunctionTypeLoadControlLimitListData
 
-func (m *world) ski(p int64) string { return fmt.Sprintf("c12-%d-p%d", m.inst, p) }
+// Model peer q is incarnation q/4 of the connection slot q%4: all incarnations of a slot use the
+// same SKI (and device address), so "peer 4" is peer 0 reconnected after its connection was removed.
+// The model treats incarnations as different peers; the stack keys its approval maps by SKI.
+const nSlots = 4
 
-func (m *world) peerOf(ski string) (int64, bool) {
-	var inst, p int64
-	if n, err := fmt.Sscanf(ski, "c12-%d-p%d", &inst, &p); err != nil || n != 2 || inst != m.inst {
+func (m *world) ski(p int64) string { return fmt.Sprintf("c12-%d-p%d", m.inst, p%nSlots) }
+
+func (m *world) slotOf(ski string) (int64, bool) {
+	var inst, sl int64
+	if n, err := fmt.Sscanf(ski, "c12-%d-p%d", &inst, &sl); err != nil || n != 2 || inst != m.inst {
 		return 0, false
 	}
-	return p, true
+	return sl, true
+}
+
+// widOf maps (SKI, msgCounter) as the stack sees it back to the write of the model.
+func (m *world) widOf(ski string, counter int64) (wid, bool) {
+	sl, ok := m.slotOf(ski)
+	if !ok {
+		return wid{}, false
+	}
+	m.mu.Lock()
+	defer m.mu.Unlock()
+	w, ok := m.byKey[wid{sl, counter}]
+	return w, ok
 }
 
 func newWorld(slot time.Duration) *world {
@@ -229,7 +257,7 @@ func newWorld(slot time.Duration) *world {
 	instances++
 	inst := instances
 	statsMu.Unlock()
-	m := &world{inst: inst, slot: slot, peers: map[int64]*peer{}, timers: map[wid]*timerRec{}, msgs: map[wid]*api.Message{},
+	m := &world{inst: inst, slot: slot, byKey: map[wid]wid{}, live: map[int64]int64{}, peers: map[int64]*peer{}, timers: map[wid]*timerRec{}, msgs: map[wid]*api.Message{},
 		bound: -1, ack: map[wid]bool{}, arrived: map[wid]bool{}, verd: map[vid]bool{}, gone: map[int64]bool{}, threads: map[vid]*vthread{}}
 	m.dev = spine.NewDeviceLocal("brand", "model", "serial", "code", "d0", model.DeviceTypeTypeEnergyManagementSystem, model.NetworkManagementFeatureSetTypeSmart)
 	ent := spine.NewEntityLocal(m.dev, model.EntityTypeTypeCEM, []model.AddressEntityType{1}, 0)
@@ -280,11 +308,17 @@ func (m *world) inject(pr *peer, h model.HeaderType, cmd model.CmdType) {
 }
 
 // ensurePeer connects peer p: discovery reply (entity [1] with a LoadControl client feature) and binding.
+// It returns nil when the slot of p is occupied by the connection of another incarnation (the same
+// SKI cannot be connected twice: such a history is not realisable).
 func (m *world) ensurePeer(p int64) *peer {
 	if pr := m.peers[p]; pr != nil {
 		return pr
 	}
-	pr := &peer{p: p, ski: m.ski(p), devA: fmt.Sprintf("d%d", p+1), ctr: 1 << 40}
+	if q, up := m.live[p%nSlots]; up && q != p {
+		return nil
+	}
+	m.live[p%nSlots] = p
+	pr := &peer{p: p, ski: m.ski(p), devA: fmt.Sprintf("d%d", p%nSlots+1), ctr: 1 << 40}
 	if anonymous(p) {
 		pr.devA = ""
 	}
@@ -406,12 +440,12 @@ func (m *world) yield(point string) {
 
 // timerHook is called by every approval timer body when it starts (0) and returns (1).
 func (m *world) timerHook(phase int, ski string, counter uint64) {
-	p, ok := m.peerOf(ski)
+	w, ok := m.widOf(ski, int64(counter))
 	if !ok {
 		return // timer of an earlier history
 	}
 	m.mu.Lock()
-	rec := m.timers[wid{p, int64(counter)}]
+	rec := m.timers[w]
 	drain := m.draining
 	m.mu.Unlock()
 	if rec == nil {
@@ -462,7 +496,7 @@ func (m *world) close() {
 	m.mu.Unlock()
 	// the removal of the connections takes the approval mutexes: never wait for it without bound
 	if !m.stuck {
-		for p := range m.peers {
+		for _, p := range m.live {
 			ski := m.ski(p)
 			if ok, _ := guarded(func() { m.dev.RemoveRemoteDevice(ski) }); !ok {
 				m.stuck = true
@@ -471,6 +505,16 @@ func (m *world) close() {
 		}
 	}
 	_ = spine.VerifStackUnsubscribeCore(m)
+}
+
+// panicObs: a call into the stack panicked (recovered by guarded / the verdict goroutine).  The locks
+// it held stay locked, so the world is treated as wedged; the panic text goes to the evidence.
+func (m *world) panicObs(kind int64, pnc any) []hx.Zs {
+	statsMu.Lock()
+	panics[fmt.Sprint(pnc)]++
+	statsMu.Unlock()
+	m.stuck = true
+	return append(m.collect(), hx.Zs{16, kind})
 }
 
 // stuckObs marks the world as wedged and is the observation of a call that never returned.
@@ -589,8 +633,8 @@ func (m *world) exec(op hx.Zs) (obs []hx.Zs, mistimed bool) {
 		_ = m.feat.AddWriteApprovalCallback(func(msg *api.Message) {
 			var p, c int64 = 999, 999
 			if msg != nil && msg.DeviceRemote != nil && msg.RequestHeader != nil && msg.RequestHeader.MsgCounter != nil {
-				if q, ok := m.peerOf(msg.DeviceRemote.Ski()); ok {
-					p, c = q, int64(*msg.RequestHeader.MsgCounter)
+				if w, ok := m.widOf(msg.DeviceRemote.Ski(), int64(*msg.RequestHeader.MsgCounter)); ok {
+					p, c = w.p, w.c
 				}
 			}
 			m.mu.Lock()
@@ -609,12 +653,25 @@ func (m *world) exec(op hx.Zs) (obs []hx.Zs, mistimed bool) {
 		if m.gone[w.p] || m.arrived[w] {
 			return skipped, false
 		}
+		if q, up := m.live[w.p%nSlots]; up && q != w.p {
+			return []hx.Zs{{96}}, false // the SKI is connected as another incarnation: not realisable
+		}
+		if k, used := m.byKey[wid{w.p % nSlots, w.c}]; used && k != w {
+			return []hx.Zs{{96}}, false // msgCounter already used on this SKI by another incarnation
+		}
 		var pr *peer
-		if ok, pnc := guarded(func() { pr = m.ensurePeer(w.p); m.bindTo(w.p) }); !ok {
+		if ok, pnc := guarded(func() {
+			if pr = m.ensurePeer(w.p); pr != nil {
+				m.bindTo(w.p)
+			}
+		}); !ok {
 			return m.stuckObs(1), false
 		} else if pnc != nil {
-			panic(pnc)
+			return m.panicObs(1, pnc), false
 		}
+		m.mu.Lock()
+		m.byKey[wid{w.p % nSlots, w.c}] = w
+		m.mu.Unlock()
 		m.arrived[w] = true
 		m.ack[w] = op[3] != 0
 		rec := &timerRec{slot: op[4], parked: make(chan struct{}), release: make(chan struct{}), done: make(chan struct{})}
@@ -643,7 +700,7 @@ func (m *world) exec(op hx.Zs) (obs []hx.Zs, mistimed bool) {
 		}); !ok {
 			return m.stuckObs(1), false
 		} else if pnc != nil {
-			panic(pnc)
+			return m.panicObs(1, pnc), false
 		}
 		// the timer was created during the call: it expires no later than now + timeout
 		rec.latest = time.Now().Add(timeout)
@@ -695,8 +752,11 @@ func (m *world) exec(op hx.Zs) (obs []hx.Zs, mistimed bool) {
 		m.cur = th
 		m.mu.Unlock()
 		go func() {
+			defer func() {
+				th.pnc = recover()
+				close(th.done)
+			}()
 			m.feat.ApproveOrDenyWrite(msg, e)
-			close(th.done)
 		}()
 		select {
 		case <-th.parked:
@@ -707,6 +767,9 @@ func (m *world) exec(op hx.Zs) (obs []hx.Zs, mistimed bool) {
 			m.mu.Lock()
 			m.cur = nil
 			m.mu.Unlock()
+			if th.pnc != nil {
+				return m.panicObs(2, th.pnc), false
+			}
 			return append(m.collect(), hx.Zs{5}), false
 		case <-time.After(bound()):
 			// ApproveOrDenyWrite neither reached the hook nor returned: the goroutine is abandoned
@@ -739,6 +802,9 @@ func (m *world) exec(op hx.Zs) (obs []hx.Zs, mistimed bool) {
 			stuckCalls.Add(1)
 			th.state = 3
 			return m.stuckObs(3), false
+		}
+		if th.pnc != nil {
+			return m.panicObs(3, th.pnc), false
 		}
 		if m.bodyStarted(w) {
 			return nil, true
@@ -810,10 +876,13 @@ func (m *world) exec(op hx.Zs) (obs []hx.Zs, mistimed bool) {
 		if m.gone[p] {
 			return skipped, false
 		}
+		if q, up := m.live[p%nSlots]; up && q != p {
+			return []hx.Zs{{96}}, false // the SKI is connected as another incarnation: not realisable
+		}
 		if ok, pnc := guarded(func() { m.ensurePeer(p) }); !ok {
 			return m.stuckObs(6), false
 		} else if pnc != nil {
-			panic(pnc)
+			return m.panicObs(6, pnc), false
 		}
 		for w := range m.arrived {
 			if w.p == p && m.bodyEarly(w) {
@@ -833,8 +902,9 @@ func (m *world) exec(op hx.Zs) (obs []hx.Zs, mistimed bool) {
 		}); !ok {
 			return m.stuckObs(6), false
 		} else if pnc != nil {
-			panic(pnc)
+			return m.panicObs(6, pnc), false
 		}
+		delete(m.live, p%nSlots)
 		for w := range m.arrived {
 			if w.p == p && m.bodyStarted(w) {
 				return nil, true
@@ -860,21 +930,27 @@ func (m *world) exec(op hx.Zs) (obs []hx.Zs, mistimed bool) {
 			return append(out, hx.Zs{15, 7}), false
 		}
 		for ski, cs := range pend {
-			p, ok := m.peerOf(ski)
-			if !ok {
-				p = 999
-			}
 			for _, c := range cs {
-				out = append(out, hx.Zs{9, p, int64(c)})
+				if w, ok := m.widOf(ski, int64(c)); ok {
+					out = append(out, hx.Zs{9, w.p, w.c})
+				} else {
+					out = append(out, hx.Zs{9, 999, int64(c)})
+				}
 			}
 		}
 		for ski, cs := range tally {
-			p, ok := m.peerOf(ski)
-			if !ok {
-				p = 999
-			}
 			for c, n := range cs {
-				out = append(out, hx.Zs{10, p, int64(c), int64(n)})
+				// only the tally of connected peers is projected: an entry left behind for a removed connection
+				// (a verdict looked up before and committed after the removal) has no effect and disappears
+				// with the SKI's map at the next clean-up of that SKI
+				if w, ok := m.widOf(ski, int64(c)); ok && m.gone[w.p] {
+					continue
+				}
+				if w, ok := m.widOf(ski, int64(c)); ok {
+					out = append(out, hx.Zs{10, w.p, w.c, int64(n)})
+				} else {
+					out = append(out, hx.Zs{10, 999, int64(c), int64(n)})
+				}
 			}
 		}
 		if w, ok := valueWrite(m.feat.DataCopy(fn)); ok {
@@ -1104,10 +1180,11 @@ func gen(r *hx.Rng, tier string, i int) []hx.Zs {
 	ctr := map[int64]int64{}
 	// approval profile of the history: mostly approving / mixed / mostly silent
 	profile := r.Intn(3)
-	for k := 0; k < nw; k++ {
-		p := peerOf(r.Intn(npeers))
-		ctr[p] += int64(r.Range(1, 3))
-		c := ctr[p]
+	// one write of model peer p: arrival, then (in any order) the verdicts of the callbacks and its timeout;
+	// msgCounters are unique per connection slot (p % 4), across the incarnations of the slot
+	mkWrite := func(p int64) *seqT {
+		ctr[p%nSlots] += int64(r.Range(1, 3))
+		c := ctr[p%nSlots]
 		arrive := &seqT{ops: []hx.Zs{{1, p, c, int64(r.Intn(2)), 0}}}
 		for cb := 0; cb < ncb; cb++ {
 			var x int
@@ -1131,11 +1208,32 @@ func gen(r *hx.Rng, tier string, i int) []hx.Zs {
 		if r.Chance(3, 5) {
 			arrive.deps = append(arrive.deps, &seqT{ops: []hx.Zs{{4, p, c}, {5, p, c}}})
 		}
-		active = append(active, arrive)
+		return arrive
 	}
+	for k := 0; k < nw; k++ {
+		active = append(active, mkWrite(peerOf(r.Intn(npeers))))
+	}
+	// removal of a peer's connection, at a random place among its pending writes; in half of the cases the
+	// peer reconnects afterwards with the same SKI (model peer p+4: discovery and binding are redone) and
+	// writes again, and that connection may be removed and re-established once more
 	for p := 0; p < npeers; p++ {
-		if r.Chance(1, 3) {
-			active = append(active, &seqT{ops: []hx.Zs{{6, peerOf(p)}}})
+		if !r.Chance(1, 3) {
+			continue
+		}
+		q := peerOf(p)
+		clean := &seqT{ops: []hx.Zs{{6, q}}}
+		active = append(active, clean)
+		for depth := 0; depth < 2 && r.Chance(1, 2); depth++ {
+			q += nSlots
+			for k := r.Range(1, 2); k > 0; k-- {
+				clean.deps = append(clean.deps, mkWrite(q))
+			}
+			if !r.Chance(1, 3) {
+				break
+			}
+			next := &seqT{ops: []hx.Zs{{6, q}}}
+			clean.deps = append(clean.deps, next)
+			clean = next
 		}
 	}
 	for len(active) > 0 {
@@ -1205,6 +1303,15 @@ func fixed(tier string) [][]hx.Zs {
 		// two peers without device address pending together, one removed
 		[]hx.Zs{{0}, {1, 1, 5, 1, 0}, {1, 3, 5, 0, 0}, {6, 3}, {2, 3, 5, 0, 1}, {3, 3, 5, 0}, {2, 1, 5, 0, 1}, {3, 1, 5, 0}, {4, 3, 5}, {5, 3, 5}, {7}},
 	)
+	hs = append(hs,
+		// disconnect, reconnect with the same SKI (peer 4 = peer 0 again), write again: behaves like a first write
+		[]hx.Zs{{0}, {1, 0, 1, 1, 0}, {2, 0, 1, 0, 1}, {3, 0, 1, 0}, {6, 0}, {1, 4, 2, 1, 0}, {2, 4, 2, 0, 1}, {3, 4, 2, 0}, {7}},
+		// the same with a write pending at the disconnect and its late timeout / verdict after the reconnect (anonymous peer 1 -> 5)
+		[]hx.Zs{{0}, {0}, {1, 1, 1, 1, 0}, {2, 1, 1, 0, 1}, {3, 1, 1, 0}, {6, 1}, {1, 5, 2, 0, 0}, {4, 1, 1}, {5, 1, 1}, {2, 1, 1, 1, 1}, {3, 1, 1, 1},
+			{2, 5, 2, 0, 1}, {3, 5, 2, 0}, {2, 5, 2, 1, 1}, {3, 5, 2, 1}, {4, 5, 2}, {5, 5, 2}, {7}},
+		// two reconnects of one SKI (RemoveRemoteDeviceConnection: 2 -> 6 -> 10), a write each, the second times out
+		[]hx.Zs{{0}, {1, 2, 1, 0, 0}, {6, 2}, {1, 6, 2, 1, 0}, {6, 6}, {1, 10, 3, 1, 0}, {4, 10, 3}, {5, 10, 3}, {4, 6, 2}, {5, 6, 2}, {7}},
+	)
 	for i := range hs {
 		hs[i] = assignSlots(hs[i])
 	}
@@ -1217,7 +1324,7 @@ func main() {
 		Property: "C12",
 		Clauses: map[int64]string{1: "not-presented-once-to-every-callback", 2: "second-outcome-for-a-write", 3: "applied-without-unanimous-approval",
 			4: "timely-verdict-without-effect", 5: "timeout-without-error-result", 6: "output-or-bookkeeping-for-removed-connection",
-			7: "data-not-the-write-applied-last", 8: "malformed-observation", 9: "call-into-the-stack-never-returned", 98: "unparseable-observation", 99: "unparseable-operation"},
+			7: "data-not-the-write-applied-last", 8: "malformed-observation", 9: "call-into-the-stack-never-returned", 10: "call-into-the-stack-panicked", 98: "unparseable-observation", 99: "unparseable-operation"},
 		OpNames: map[int64]string{0: "add-callback", 1: "arrive", 2: "verdict-lookup", 3: "verdict-commit", 4: "timeout-expire", 5: "timeout-fire", 6: "remove-connection", 7: "probe"},
 		NewImpl: newImpl,
 		Gen:     gen,
@@ -1227,7 +1334,7 @@ func main() {
 		Extra: func() map[string]any {
 			statsMu.Lock()
 			defer statsMu.Unlock()
-			return map[string]any{"timing_retries": retries, "steps_not_realised": unreal, "calls_that_never_returned": stuckCalls.Load(), "implementation_step_outcomes": outcomeHist, "steps_not_realised_reasons": unrealWhy, "timeouts_awaited": expWaits,
+			return map[string]any{"timing_retries": retries, "steps_not_realised": unreal, "calls_that_never_returned": stuckCalls.Load(), "recovered_panics": panics, "implementation_step_outcomes": outcomeHist, "steps_not_realised_reasons": unrealWhy, "timeouts_awaited": expWaits,
 				"slot_ms": float64(baseSlot) / float64(time.Millisecond), "max_timer_lateness_ms": float64(maxLate) / float64(time.Millisecond)}
 		},
 	})
